@@ -64,7 +64,7 @@ func containsPrereleaseMarkers(versionStr string) bool {
 	versionStr = strings.ToLower(versionStr)
 
 	// Define prerelease markers in order of length (longest first to avoid partial matches)
-	markers := []string{"alpha", "beta", "dev", "rc", "a", "b"}
+	markers := []string{"alpha", "beta", "dev", "rc", "a", "b", "c"}
 
 	for _, marker := range markers {
 		// Look for the marker in the version string
